@@ -38,7 +38,7 @@ MANIFEST = {
 }
 EXPLANATION = MANIFEST["level_text"]
 TRUSTED = [
-    "pyvc VC generator, its string/bytes/struct encodings; z3 5.1.0 / cvc5 1.0.3",
+    "pyvc VC generator, its string/bytes/struct encodings; z3 5.1.0 / cvc5 1.4.0",
     "AEAD (XChaCha20-Poly1305 via crypto._seal/_open): _open(body,key,aad,nonce) returns p iff body was produced by _seal(p,key,aad,nonce); otherwise SealError; ciphertext reveals nothing of p (assumed, not proved)",
     "base64: b64decode(b64encode(x)) = x; b64decode(validate=True) returns bytes or raises binascii.Error",
     "zstandard: decompress(compress(x)) = x; decompress returns at most max_output_size bytes or raises ZstdError",
